@@ -79,6 +79,13 @@ fn gen_decl(rng: &mut Rng, types: u64, density: u64) -> (Vec<usize>, Vec<usize>)
             r.push(d as usize);
         } else if x < density {
             w.push(d as usize);
+            // now and then a function both reads and writes a type (an in-place update), or names a
+            // type twice in one list
+            if rng.chance(12) {
+                r.push(d as usize);
+            } else if rng.chance(6) {
+                w.push(d as usize);
+            }
         }
     }
     (r, w)
@@ -418,7 +425,7 @@ fn gen_runcfg(rng: &mut Rng, stream: bool, shared_only: bool) -> RunCfg {
         }
         break;
     }
-    let mut c = RunCfg { api, rev: false, limit: None, strat: Strat::Non, incl: true, ord: rng.below(6) as u8 };
+    let mut c = RunCfg { api, rev: false, limit: None, strat: Strat::Non, incl: true, ord: rng.below(12) as u8 };
     if c.api.contains("for_each_concurrent") {
         c.limit = *rng.pick(&[None, None, Some(0), Some(1), Some(1), Some(2), Some(2), Some(3), Some(4), Some(5), Some(64), Some(usize::MAX)]);
     }
@@ -614,6 +621,10 @@ impl GenChooser {
             } else {
                 1 + rng.below(3.min(r.inflight.len() as u64)) as usize
             };
+            if self.midpoll_intr && !r.intr_sent && rng.chance(20) {
+                // a sender on another thread: the signal lands right after one of the next polls
+                batch.push(Act::After { run: i, k: rng.below(3) as usize });
+            }
             let mut infl = r.inflight.clone();
             for pos in 0..k.min(infl.len()) {
                 let j = rng.below(infl.len() as u64) as usize;
@@ -975,12 +986,13 @@ fn kpops_main(sizes: &str) {
     let mut lock = stdout.lock();
     for (i, s) in sizes.split(',').enumerate() {
         let n: usize = s.parse().unwrap();
-        for variant in 0..7 {
+        for variant in 0..8 {
             let mut ops = vec![];
             for i in 0..n {
                 // variant 4: two conflicting writers on top of the lattice (a data edge is added whose
                 // target heads the layered part)
-                let w = if variant == 4 && i < 2 { vec![0] } else { vec![] };
+                // variant 7: a writer heads the lattice, a second, unconnected writer is inserted last
+                let w = if (variant == 4 && i < 2) || (variant == 7 && (i == 0 || i + 1 == n)) { vec![0] } else { vec![] };
                 if variant == 6 {
                     // layers made of access declarations alone: groups of 3 functions without any logic
                     // edge, each writes its own type and reads the 3 types of the previous group
@@ -993,6 +1005,19 @@ fn kpops_main(sizes: &str) {
                 ops.push(Op::Fn { tag: 0, r: vec![], w });
             }
             if variant == 6 {
+            } else if variant == 7 {
+                let width = 3;
+                let m = n.saturating_sub(1); // the last function stays unconnected
+                for b in 1..(1 + width).min(m) {
+                    ops.push(Op::Edge { k: K::Logic, a: 0, b });
+                }
+                for a in 1..m {
+                    for b in 1..m {
+                        if (b - 1) / width == (a - 1) / width + 1 {
+                            ops.push(Op::Edge { k: K::Logic, a, b });
+                        }
+                    }
+                }
             } else if variant == 4 {
                 let width = 3;
                 if n > 2 {
@@ -1052,7 +1077,7 @@ fn kpops_main(sizes: &str) {
                 }
             }
             let mut out = vec![];
-            out.push(format!("case k{}_{} feat={} shape={}", i, variant, FEAT, ["kcomplete", "klayered", "kdense+chain", "kfanchain", "kwriters+lattice", "kcontains", "kdatalayers"][variant]));
+            out.push(format!("case k{}_{} feat={} shape={}", i, variant, FEAT, ["kcomplete", "klayered", "kdense+chain", "kfanchain", "kwriters+lattice", "kcontains", "kdatalayers", "kwriter+lattice+writer"][variant]));
             for op in &ops {
                 out.push(op.line());
             }
@@ -1145,6 +1170,14 @@ impl DfsChooser {
         }
         if interrupting && !r.intr_sent && !r.inflight.is_empty() {
             o.push(vec![Act::Intr { run: 0 }]);
+            // a sender on another thread: the signal lands right after the first / second poll of the
+            // burst that the next completion starts (not at a quiescent point)
+            if matches!(r.cfg.strat, Strat::Finish | Strat::PollN(_)) {
+                let f = r.inflight[0];
+                for k in 0..2 {
+                    o.push(vec![Act::After { run: 0, k }, Act::Open { run: 0, f, ok: true, intr: false }]);
+                }
+            }
         }
         o
     }
